@@ -29,7 +29,8 @@ RULE = ('(streams) momentum, SMA and volatility signals built over 1-5 assets wi
         'business days, and the values seen at a rebalance equal the oracle over the closes up to that instant. '
         '1e-9 relative. Non-trivial = stream longer than the lookback (window slides), >= 2 lookbacks and >= 2 '
         'assets; sessions: >= 1 late entrant.'
-        " Round-10 reach: a quarter of the sessions build the signals collection on a data handler of its own (the same files with the opposite price adjustment); buffers and values are compared with that feed's closes.")
+        " Round-10 reach: a quarter of the sessions build the signals collection on a data handler of its own (the same files with the opposite price adjustment); buffers and values are compared with that feed's closes."
+        " Round-11 reach: stream op `refused_update` (one asset carries a non-positive print, the collection update raises part-way, the caller carries on: every window holds its closes with or without that day's and later updates deliver their own prices); sessions whose collection was fed the 1-5 business days before the start directly.")
 ASSUMPTIONS = [
     'positive prices; lookbacks 1..30; up to 5 assets; streams up to 60 steps; sessions up to 60 days',
     'in sessions the market has data before every entry (an unpriced asset is C06/C07\'s subject)',
@@ -124,6 +125,56 @@ def _one_pass(q, case, assets, lbs, dyn, split, uni_of, label):
                 except ValueError:
                     continue
                 raise Excluded('non_positive_price_accepted')
+        elif op[0] == 'refused_update':
+            # a collection update on a day on which one asset carries a bad print (a non-positive quote): the update
+            # raises the documented ValueError part-way and the caller carries on.  Which windows already received
+            # that day's price is not stated - each must hold its closes so far with or without it, never anything
+            # else - and every later update delivers its own prices again
+            bad = assets[op[2] % len(assets)]
+            for j, a in enumerate(assets):
+                dh.set(a, op[1][j % len(op[1])])
+            dh.set(bad, op[3])
+            t = T0 + pd.Timedelta(days=day)
+            day += 1
+            try:
+                coll.update(t)
+            except ValueError:
+                pass
+            else:
+                raise Excluded('non_positive_price_accepted')
+            if coll.warmup not in (updates, updates + 1):
+                raise Violation('warmup counter %r after %d updates and a refused one' % (coll.warmup, updates))
+            updates = coll.warmup
+
+            def fits(name_, s_, a_, h_):
+                try:
+                    check_all({name_: s_}, {a_: h_}, lbs, '')
+                except Violation:
+                    return False
+                return True
+            for name, s in sigs.items():
+                for a in assets:
+                    h0 = hist[name][a]
+                    h1 = h0 + [dh.q[a][0]]
+                    ok0 = fits(name, s, a, h0) if h0 else None
+                    ok1 = a != bad and fits(name, s, a, h1)
+                    if not h0:
+                        # no close so far: an empty window and a one-price window answer alike, so look at the window
+                        bump_ = 0 if name == 'sma' else 1
+                        filled = any(len(s.buffers.prices.get('%s_%s' % (a, lb_ + bump_), [])) > 0 for lb_ in lbs[name])
+                        if filled and not ok1:
+                            raise Violation('%sstep %d: after an update refused for the bad print of %s, the empty %s window of '
+                                            '%s holds something other than that day\'s %r' % (label, i, bad, name, a, dh.q[a][0]))
+                        ok1 = filled
+                    if ok0 and ok1:
+                        raise Excluded('ambiguous_after_refused_update')
+                    if ok1:
+                        hist[name][a] = h1
+                    elif ok0 is False:
+                        raise Violation('%sstep %d: after an update refused for the bad print of %s, the %s window of %s fits '
+                                        'neither its closes so far %s nor those plus that day\'s %r' % (
+                                            label, i, bad, name, a, h0[-4:], dh.q[a][0]))
+            dh.set(bad, abs(op[3]) + 1.0)
         elif op[0] == 'append':
             a = assets[op[1] % len(assets)]
             for name, s in sigs.items():
@@ -194,6 +245,8 @@ def run_stream(case):
         cls.append('price_le_1')
     if any(op[0] == 'update' for op in case['ops']):
         cls.append('via_collection')
+    if any(op[0] == 'refused_update' for op in case['ops']):
+        cls.append('collection_update_refused_part_way')
     if any(op[0] == 'refused' for op in case['ops']):
         cls.append('refused_non_positive_price_in_between')
     if not dyn and any(op[0] == 'update' and len(op) > 2 and op[2] < 1 for op in case['ops']):
@@ -226,6 +279,9 @@ def streams(draw):
     for _ in range(n):
         if mode in ('append', 'mixed') and draw(st.sampled_from([False] * 9 + [True])):
             ops.append(['refused', draw(st.integers(0, len(assets) - 1)), draw(st.sampled_from([0.0, -1.0, -0.01, -250.0]))])
+        elif mode in ('update', 'mixed') and draw(st.sampled_from([False] * 11 + [True])):
+            ops.append(['refused_update', [draw(sprice) for _ in range(draw(st.integers(1, len(assets))))],
+                        draw(st.integers(0, len(assets) - 1)), draw(st.sampled_from([0.0, -1.0, -0.01]))])
         elif mode == 'append' or (mode == 'mixed' and draw(st.booleans())):
             ops.append(['append', draw(st.integers(0, len(assets) - 1)), draw(sprice)])
         else:
@@ -276,15 +332,23 @@ def _verify_sess(case, r, label):
                 entry[a] = cal.ts6(v)
     # per asset: the 21:00 point-in-time price of every business day on which it was a member at that close
     series = {}
+    pre_days = []
+    if cfg.get('prewarm_days'):
+        d_ = d0 - D.timedelta(days=1)
+        while len(pre_days) < cfg['prewarm_days']:
+            if d_.weekday() < 5:
+                pre_days.insert(0, d_)
+            d_ -= D.timedelta(days=1)
     for a, e in entry.items():
-        pts = []
+        pts = [(cal.ts(d, 21, 0), lookup(obs[a], cal.ts(d, 21, 0))[0]) for d in pre_days]      # (static universes only)
         for d in days:
             t = cal.ts(d, 21, 0)
             if e is None or e <= t or e <= start:
                 pts.append((t, lookup(obs[a], t)[0]))
         series[a] = pts
-    if r.signals.warmup != len(days):
-        raise Violation(label + 'signals warmup %r, the session had %d business days' % (r.signals.warmup, len(days)))
+    if r.signals.warmup != len(days) + len(pre_days):
+        raise Violation(label + 'signals warmup %r, the session had %d business days%s' % (
+            r.signals.warmup, len(days), ' after %d fed directly' % len(pre_days) if pre_days else ''))
     late = False
     for name, s in r.sig.items():
         want_assets = sorted(a for a, p in series.items() if p or entry[a] is None or entry[a] <= start)
@@ -295,7 +359,7 @@ def _verify_sess(case, r, label):
             full = [p for _, p in series[a]]
             if any(p != p for p in full):
                 continue            # a watched asset without quotes at first: what it is fed on those days is not stated
-            if len(full) < len(days):
+            if len(full) < len(days) + len(pre_days):
                 late = True
             for lb in cfg['signals'][name]:
                 key = '%s_%s' % (a, lb + bump)
@@ -365,6 +429,9 @@ def sessions(draw):
     if draw(st.sampled_from([False, False, False, True])):
         cfg['extra_clock_events'] = True
         lab = lab + ['clock_with_pre_and_post_market_events']
+    if (cfg.get('signal_universe') or cfg['universe'])['kind'] == 'static' and draw(st.sampled_from([False, False, True])):
+        cfg['prewarm_days'] = draw(st.integers(1, 5))
+        lab = lab + ['collection_fed_the_days_before_the_session']
     if draw(st.sampled_from([False, False, False, True])):
         cfg['signals_feed'] = 'other_adjustment'
         lab = lab + ['signals_on_a_data_handler_of_their_own']
